@@ -50,26 +50,28 @@ type item struct {
 	want   string
 	raw    []byte
 	stepIx int
+	live   bool // the counter contract exists when this transaction runs
 }
 
 var plainOK = map[string]bool{"xfer": true, "create": true, "call": true, "revert": true, "oog": true, "loop": true, "pre": true,
 	"admok": true, "admshort": true, "kv": true, "kvbig": true}
 
 type run struct {
-	rep       *mbt.Report
-	ti        int
-	tr        mbt.Trace
-	node      *evmutil.Node
-	twin      *evmutil.Node
-	twinChain [][][]byte
-	height    int64
-	ledger    map[common.Address]uint64
-	applied   map[string]int64 // raw bytes -> height at which it was reported valid
-	everInv   map[string]bool
-	model     bool
-	gate      bool
-	aborted   bool
-	classes   map[string]bool
+	rep        *mbt.Report
+	ti         int
+	tr         mbt.Trace
+	node       *evmutil.Node
+	twin       *evmutil.Node
+	twinChain  [][][]byte
+	targetLive bool
+	height     int64
+	ledger     map[common.Address]uint64
+	applied    map[string]int64 // raw bytes -> height at which it was reported valid
+	everInv    map[string]bool
+	model      bool
+	gate       bool
+	aborted    bool
+	classes    map[string]bool
 }
 
 func (r *run) fail(si int, action, kind string, prop bool, key, detail string, want, got interface{}) {
@@ -194,6 +196,10 @@ func (r *run) runBlock(si int, items []item, commit bool) {
 		}
 		from, tx, sok := evmutil.Sender(it.raw)
 		r.rep.Checks++
+		items[i].live = r.targetLive
+		if got[i] == "valid" && it.known && it.t.C == "create" && it.t.A == 1 && it.t.N == 0 {
+			r.targetLive = true
+		}
 		if got[i] == "valid" {
 			twinTxs = append(twinTxs, it.raw)
 			if !sok {
@@ -318,7 +324,7 @@ func (r *run) runBlock(si int, items []item, commit bool) {
 			}
 		}
 		if got[i] == "valid" && found && r.model && it.known {
-			if ws := evmutil.ExpectStatus(it.t.C); ws != nil {
+			if ws := evmutil.ExpectStatus(it.t.C, it.live); ws != nil {
 				wantS := uint64(0)
 				if *ws {
 					wantS = 1
